@@ -78,6 +78,15 @@ def rel(t1, t2, env):
         if a and b:
             return "same" if c1 is c2 else None
         return "lt" if a else "gt" if b else "none"
+    y1 = (not s1) and t1[0] == "Ty" and isinstance(t1[1], str)
+    y2 = (not s2) and t2[0] == "Ty" and isinstance(t2[1], str)
+    if y1 and y2:
+        # type[A] vs type[B]: by subtype (C14)
+        return rel(t1[1], t2[1], env)
+    if y1 and t2 == "object":
+        return "lt"     # a class object is an instance of object; type[...] is the narrower statement about it
+    if y2 and t1 == "object":
+        return "gt"
     d1 = (not s1) and t1[0] in ("D", "L", "W")
     d2 = (not s2) and t2[0] in ("D", "L", "W")
     if d1 and s2:
